@@ -1,6 +1,7 @@
 /- SM2 requests of the model driver (protocol, curve, point and field level). Core Lean only. -/
 import SMGo.Spec.Bytes
 import SMGo.Spec.SM2
+import SMGo.Spec.SM2Proto
 import SMGo.Model.SM2Inst
 import SMGo.Gen.FiatP
 import SMGo.Gen.FiatN
@@ -19,34 +20,16 @@ def parseScript (s : String) : Option (Option Model.SM2.Script) :=
   else if s = "-" then some (some [])
   else
     ((s.splitOn ",").mapM (fun tok =>
-      if tok = "f" then some Model.SM2.Item.fail
-      else if tok = "z" then some Model.SM2.Item.zero
-      else if tok.startsWith "d" then (Bytes.ofHex (tok.drop 1).toString).map Model.SM2.Item.data
+      if tok = "f" then some Spec.SM2.Item.fail
+      else if tok = "z" then some Spec.SM2.Item.zero
+      else if tok.startsWith "d" then (Bytes.ofHex (tok.drop 1).toString).map Spec.SM2.Item.data
       else none)).map some
 
 def X := Model.SM2.ctx
 
-/-- spec view of a script: the 32-byte candidates delivered before the first failure / EOF -/
-def candidates : Model.SM2.Script → Bytes → List Bytes × Bool
-  | [], acc => ([], acc.length = 0 && false)
-  | .fail :: _, _ => ([], false)
-  | .zero :: r, acc => candidates r acc
-  | .data b :: r, acc =>
-    let all := acc ++ b
-    let rec chunk (fuel : Nat) (x : Bytes) (out : List Bytes) : List Bytes × Bytes :=
-      match fuel with
-      | 0 => (out, x)
-      | fuel + 1 => if x.length ≥ 32 then chunk fuel (x.drop 32) (out ++ [x.take 32]) else (out, x)
-    let (cs, rest) := chunk (all.length / 32 + 1) all []
-    let (more, ok) := candidates r rest
-    (cs ++ more, ok)
-
 def specSign (priv e : Bytes) (sc : Model.SM2.Script) : String :=
-  let d := Bytes.toNatBE priv
-  if priv.length > 32 ∨ !(Spec.SM2.validKey d) then "err" else
-  let (cs, _) := candidates sc []
-  match Spec.SM2.signStream d (Bytes.toNatBE e) (cs.map Bytes.toNatBE) 0 with
-  | some (j, r, s) => s!"ok {Bytes.toHex (Bytes.ofNatBE 32 r)} {Bytes.toHex (Bytes.ofNatBE 32 s)} {32 * (j + 1)}"
+  match Spec.SM2.signBytes priv e sc with
+  | some (r, s, c) => s!"ok {Bytes.toHex r} {Bytes.toHex s} {c}"
   | none => "err"
 
 def showSig : Outcome ((Bytes × Bytes) × Nat) → String
@@ -59,17 +42,9 @@ def showBool : Outcome Bool → String
   | .err => "err"
   | .panic => "panic"
 
-def pointBytesSpec : Spec.SM2.Point → Bytes
-  | none => [0]
-  | some (x, y) => [4] ++ Bytes.ofNatBE 32 x ++ Bytes.ofNatBE 32 y
+def pointBytesSpec := Spec.SM2.pointBytes
 
-def parsePointSpec (b : Bytes) : Option Spec.SM2.Point :=
-  if b = [0] then some none
-  else if b.length = 65 ∧ b.head? = some 4 then
-    let x := Bytes.toNatBE ((b.drop 1).take 32)
-    let y := Bytes.toNatBE (b.drop 33)
-    if x < Spec.SM2.p ∧ y < Spec.SM2.p ∧ Spec.SM2.onCurve x y then some (some (x, y)) else none
-  else none
+def parsePointSpec := Spec.SM2.parsePoint
 
 def showPt : Outcome (Model.Point.Pt Nat) → String
   | .ok p => "ok " ++ Bytes.toHex (Model.Point.bytes X.C p true)
@@ -180,18 +155,9 @@ def handle (toks : List String) : Option String :=
     | none => some "bad-op"
   | ["sm2.genkey.spec", sc] =>
     match parseScript sc with
-    | some none => some "err"
-    | some (some sc) =>
-      let (cs, _) := candidates sc []
-      let rec find (l : List Bytes) (j : Nat) : Option (Bytes × Nat) :=
-        match l with
-        | [] => none
-        | c :: r => if Spec.SM2.validKey (Bytes.toNatBE c) then some (c, j) else find r (j + 1)
-      some (match find cs 0 with
-        | some (d, j) =>
-          match Spec.SM2.smul (Bytes.toNatBE d) Spec.SM2.G with
-          | some (x, y) => s!"ok {Bytes.toHex d} {Bytes.toHex (Bytes.ofNatBE 32 x)} {Bytes.toHex (Bytes.ofNatBE 32 y)} {32 * (j + 1)}"
-          | none => "err"
+    | some sc =>
+      some (match Spec.SM2.genKey sc with
+        | some (d, x, y, c) => s!"ok {Bytes.toHex d} {Bytes.toHex x} {Bytes.toHex y} {c}"
         | none => "err")
     | none => some "bad-op"
   | ["sm2.derive", priv] =>
@@ -201,11 +167,8 @@ def handle (toks : List String) : Option String :=
     | none => some "bad-op"
   | ["sm2.derive.spec", priv] =>
     match parseBytes priv with
-    | some priv =>
-      if priv.length ≠ 32 then some "err" else
-      some (match Spec.SM2.smul (Bytes.toNatBE priv) Spec.SM2.G with
-        | some (x, y) => s!"ok {Bytes.toHex (Bytes.ofNatBE 32 x)} {Bytes.toHex (Bytes.ofNatBE 32 y)}"
-        | none => "err")
+    | some priv => some (match Spec.SM2.derive priv with
+        | some (x, y) => s!"ok {Bytes.toHex x} {Bytes.toHex y}" | none => "err")
     | none => some "bad-op"
   | ["sm2.testkey", priv] =>
     match parseBytes priv with
@@ -223,9 +186,7 @@ def handle (toks : List String) : Option String :=
     | _, _ => some "bad-op"
   | ["sm2.oncurve.spec", x, y] =>
     match parseBytes x, parseBytes y with
-    | some x, some y =>
-      let xv := Bytes.toNatBE x; let yv := Bytes.toNatBE y
-      some (if x.length = 32 ∧ y.length = 32 ∧ xv < Spec.SM2.p ∧ yv < Spec.SM2.p ∧ Spec.SM2.onCurve xv yv then "ok true" else "ok false")
+    | some x, some y => some (if Spec.SM2.onCurveBytes x y then "ok true" else "ok false")
     | _, _ => some "bad-op"
   | ["sm2.za", id, px, py] =>
     match parseBytes id, parseBytes px, parseBytes py with
@@ -242,8 +203,8 @@ def handle (toks : List String) : Option String :=
   | ["sm2.signid.spec", id, px, py, priv, msg, sc] =>
     match parseBytes id, parseBytes px, parseBytes py, parseBytes priv, parseBytes msg, parseScript sc with
     | some id, some px, some py, some priv, some msg, some (some sc) =>
-      some (match Spec.SM2.za id px py with
-        | some z => specSign priv (Spec.SM2.digest z msg) sc
+      some (match Spec.SM2.signIdBytes id px py priv msg sc with
+        | some (r, s, c) => s!"ok {Bytes.toHex r} {Bytes.toHex s} {c}"
         | none => "err")
     | _, _, _, _, _, _ => some "bad-op"
   | ["sm2.verifyid", id, px, py, msg, r, s] =>
@@ -253,9 +214,7 @@ def handle (toks : List String) : Option String :=
   | ["sm2.verifyid.spec", id, px, py, msg, r, s] =>
     match parseBytes id, parseBytes px, parseBytes py, parseBytes msg, parseBytes r, parseBytes s with
     | some id, some px, some py, some msg, some r, some s =>
-      some (match Spec.SM2.za id px py with
-        | some z => if Spec.SM2.verify px py (Spec.SM2.digest z msg) r s then "ok true" else "ok false"
-        | none => "ok false")
+      some (if Spec.SM2.verifyId id px py msg r s then "ok true" else "ok false")
     | _, _, _, _, _, _ => some "bad-op"
   | ["sm2.basemult", scheme, k] =>
     match schemeTables scheme, parseBytes k with
@@ -344,6 +303,19 @@ def handle (toks : List String) : Option String :=
         | some P, some Q => "ok " ++ Bytes.toHex (pointBytesSpec (Spec.SM2.add P Q))
         | _, _ => "bad-point")
     | _, _ => some "bad-op"
+  | ["fe.setbytes", fld, v] =>
+    match parseBytes v with
+    | some v =>
+      let F := if fld = "p" then Model.SM2.Fp else Model.SM2.Fn
+      some (match (if fld = "p" then Model.Field.setBytes F v else Model.Field.scalarSetBytes F v) with
+        | .ok e => "ok " ++ Bytes.toHex (Model.Field.bytes F e) | .err => "err" | .panic => "panic")
+    | none => some "bad-op"
+  | ["fe.setbytes.spec", fld, v] =>
+    match parseBytes v with
+    | some v =>
+      let m := if fld = "p" then Spec.SM2.p else Spec.SM2.n
+      some (if v.length = 32 ∧ Bytes.toNatBE v < m then "ok " ++ Bytes.toHex v else "err")
+    | none => some "bad-op"
   | ["fiat", fld, op, a, b] =>
     match parseLimbs a, parseLimbs b with
     | some a, some b => some (match fiatGen fld op a b with | some r => "ok " ++ showLimbs r | none => "bad-op")
